@@ -242,11 +242,11 @@ def opReuseEnc (args : List String) (impl : String) : Result :=
 /-- reuse-parse <fmt> <doc;doc;…;probe> -/
 def opReuseParse (args : List String) (impl : String) : Result :=
   match args with
-  | [fmt, docsS] =>
+  | [fmt, mode, docsS] =>
     match codecOf fmt, allSome ((docsS.splitOn ";").map ofHex) with
     | some c, some docs =>
       let model :=
-        match c.parseDocs docs, c.parseDocs [docs.getLast!] with
+        match c.parseDocs mode docs, c.parseDocs mode [docs.getLast!] with
         | some rs, some [fresh] =>
           s!"{evsToString rs.getLast!.1}|{evsToString fresh.1}|{"/".intercalate (rs.map (·.2))}"
         | _, _ => "err"
@@ -255,7 +255,11 @@ def opReuseParse (args : List String) (impl : String) : Result :=
         match impl.splitOn "|" with
         | [a, b, ds] =>
           (if a != b then [s!"C17 {fmt}-reused-parser-reports-different-events"] else []) ++
-          (if (ds.splitOn "/").any (fun d => d.toList.any (fun ch => ch != '0' && ch != '.'))
+          -- nesting stacks only: the JSON parser's second figure is the length of its literal
+          -- buffer, which `finalize` leaves filled after a trailing number (no nesting stack)
+          (if (ds.splitOn "/").any (fun d =>
+                let d := if fmt == "json" then (d.splitOn ".").headD "0" else d
+                d.toList.any (fun ch => ch != '0' && ch != '.'))
            then [s!"C17 {fmt}-parser-stack-not-idle-between-documents depths={ds}"] else [])
         | _ => []
       { model := some model, fails := fails }
